@@ -6,8 +6,11 @@ import (
 	"context"
 	"encoding/json"
 	"fmt"
+	"math/rand"
 	"os"
 	"strings"
+	"sync"
+	"sync/atomic"
 	"testing"
 	"time"
 
@@ -162,11 +165,11 @@ func TestVerifC09Lifecycle(t *testing.T) {
 	vk.Quiet()
 	run := vk.Start(t, "C09", "bridge-lifecycle")
 	defer run.Finish()
-	run.Rule("per case: backend x ending (target-closes | source-closes-after-target | node-cancelled-before-target) x tunnel-id/target-host/port shape; real TunnelOpen through SessionManager.HandlePacket; " +
+	run.Rule("per case: backend x ending (target-closes | source-closes-after-target | node-cancelled-before-target | dup-race = 2-4 concurrent + 1 sequential duplicate source opens for one tunnel id, then node-cancelled) x tunnel-id/target-host/port shape; real TunnelOpen through SessionManager.HandlePacket; " +
 		"lookups through a second RoutingTable (other node) on the same store; distinct = (backend, ending, host index, port index)")
 	r := run.Rand("lifecycle")
-	n := run.Pick(120, 1200)
-	endings := []string{"target-closes", "source-closes", "node-cancelled"}
+	n := run.Pick(160, 1600)
+	endings := []string{"target-closes", "source-closes", "node-cancelled", "dup-race"}
 	backends := []string{"memory", "hybrid-shared"}
 	for i := 0; i < n; i++ {
 		if run.Violations() > 10 {
@@ -182,7 +185,7 @@ func TestVerifC09Lifecycle(t *testing.T) {
 		sig := fmt.Sprintf("%s|%s", backend, ending)
 		detail := map[string]any{"case": i, "backend": backend, "ending": ending, "tunnel_id": tid, "host_index": hi, "port": c09LPorts[pi]}
 		run.Case(sig, detail)
-		c09LifecycleCase(t, run, backend, ending, tid, c09Hosts[hi], c09LPorts[pi], detail)
+		c09LifecycleCase(t, run, r, backend, ending, tid, c09Hosts[hi], c09LPorts[pi], detail)
 		run.Eval(1)
 		run.Distinct(fmt.Sprintf("%s|%s|h%d|p%d", backend, ending, hi, pi))
 	}
@@ -199,12 +202,17 @@ func TestVerifC09Lifecycle(t *testing.T) {
 	for _, b := range backends {
 		run.Floor("waiting_resolved_from_other_node|"+b, int64(n/4))
 		for _, e := range endings {
-			run.Floor("ended_not_resolving|"+b+"|"+e, int64(n/8))
+			run.Floor("ended_not_resolving|"+b+"|"+e, int64(n/10))
 		}
+		run.Floor("duplicate_opens_survived|"+b, int64(n/10))
+	}
+	// non-vacuity of the race: duplicate opens really reached startSourceBridge's own bridge-exists check
+	run.Floor("race_loser_rejected_in_startSourceBridge", int64(n/40))
+	{
 	}
 }
 
-func c09LifecycleCase(t *testing.T, run *vk.Run, backend, ending, tid, host string, port int, detail map[string]any) {
+func c09LifecycleCase(t *testing.T, run *vk.Run, rng *rand.Rand, backend, ending, tid, host string, port int, detail map[string]any) {
 	if !c09AwaitLifecycleEnd() {
 		run.Count("watchdog_previous_lifecycle", 1)
 		return
@@ -234,56 +242,130 @@ func c09LifecycleCase(t *testing.T, run *vk.Run, backend, ending, tid, host stri
 		run.Violation("C09:lifecycle|phantom-before-open|backend="+backend, detail)
 		return
 	}
-	sc := n.MustConnect("")
-	if ok, err := sc.Login(src.ClientID, src.Secret, "tunnel"); !ok {
-		run.Count("source_login_failed", 1)
-		detail["setup_error"] = fmt.Sprint(err)
-		run.Observe("last_setup_error", detail)
-		return
-	}
-	ack, oerr := c09OpenTunnel(sc, mapping.ID, tid, mapping.SecretKey)
-	if ack == nil || !ack.Success {
-		run.Count("source_open_failed", 1)
-		detail["setup_error"] = fmt.Sprintf("ack=%+v err=%v", ack, oerr)
-		run.Observe("last_setup_error", detail)
-		return
-	}
-	// The source bridge is waiting (the ack is written after the handler accepted; the
-	// bridge + routing record are created synchronously inside HandlePacket before it
-	// returned). Look up from the other node.
-	st, lerr := w.other.LookupWaitingTunnel(ctx, tid)
-	if lerr != nil || st == nil {
-		run.Violation("C09:lifecycle|lost-while-waiting|backend="+backend, map[string]any{"case": detail, "error": fmt.Sprint(lerr)})
-		return
-	}
-	var diff []string
-	if st.TunnelID != tid {
-		diff = append(diff, "TunnelID")
-	}
-	if st.MappingID != mapping.ID {
-		diff = append(diff, "MappingID")
-	}
-	if st.SourceNodeID != "node-a" {
-		diff = append(diff, "SourceNodeID")
-	}
-	if st.SourceClientID != src.ClientID {
-		diff = append(diff, "SourceClientID")
-	}
-	if st.TargetClientID != tgt.ClientID {
-		diff = append(diff, "TargetClientID")
-	}
-	if st.TargetHost != host {
-		diff = append(diff, "TargetHost")
-	}
-	if st.TargetPort != port {
-		diff = append(diff, "TargetPort")
-	}
-	if len(diff) > 0 {
-		for _, f := range diff {
-			run.Violation("C09:lifecycle|field-mismatch|backend="+backend+"|field="+f, map[string]any{"case": detail, "got": fmt.Sprintf("%+v", *st),
-				"want": fmt.Sprintf("mapping=%s src=%d tgt=%d host=%q port=%d node=node-a", mapping.ID, src.ClientID, tgt.ClientID, host, port)})
+	// checkWaiting: while the source waits, the other node's table must resolve the id to
+	// node-a and to exactly the mapping's data (and so must node-a's own table).
+	checkWaiting := func(phase string) bool {
+		for _, view := range []struct {
+			name string
+			rt   *session.TunnelRoutingTable
+		}{{"other-node", w.other}, {"own-node", n.Routing}} {
+			st, lerr := view.rt.LookupWaitingTunnel(ctx, tid)
+			if lerr != nil || st == nil {
+				run.Violation("C09:lifecycle|lost-while-waiting|backend="+backend+"|phase="+phase, map[string]any{"case": detail, "view": view.name, "error": fmt.Sprint(lerr)})
+				return false
+			}
+			var diff []string
+			if st.TunnelID != tid {
+				diff = append(diff, "TunnelID")
+			}
+			if st.MappingID != mapping.ID {
+				diff = append(diff, "MappingID")
+			}
+			if st.SourceNodeID != "node-a" {
+				diff = append(diff, "SourceNodeID")
+			}
+			if st.SourceClientID != src.ClientID {
+				diff = append(diff, "SourceClientID")
+			}
+			if st.TargetClientID != tgt.ClientID {
+				diff = append(diff, "TargetClientID")
+			}
+			if st.TargetHost != host {
+				diff = append(diff, "TargetHost")
+			}
+			if st.TargetPort != port {
+				diff = append(diff, "TargetPort")
+			}
+			if len(diff) > 0 {
+				for _, f := range diff {
+					run.Violation("C09:lifecycle|field-mismatch|backend="+backend+"|field="+f, map[string]any{"case": detail, "phase": phase, "view": view.name, "got": fmt.Sprintf("%+v", *st),
+						"want": fmt.Sprintf("mapping=%s src=%d tgt=%d host=%q port=%d node=node-a", mapping.ID, src.ClientID, tgt.ClientID, host, port)})
+				}
+				return false
+			}
 		}
-		return
+		return true
+	}
+	sourceConn := func() *miniClient {
+		c := n.MustConnect("")
+		if ok, err := c.Login(src.ClientID, src.Secret, "tunnel"); !ok {
+			run.Count("source_login_failed", 1)
+			detail["setup_error"] = fmt.Sprint(err)
+			run.Observe("last_setup_error", detail)
+			return nil
+		}
+		return c
+	}
+	var sc *miniClient
+	if ending == "dup-race" {
+		// K source-side opens for ONE tunnel id from the same listen client on K
+		// connections, released together (spin barrier): retransmit / replay race.
+		k := 2 + rng.Intn(3)
+		detail["racers"] = k
+		conns := make([]*miniClient, k)
+		for i := range conns {
+			if conns[i] = sourceConn(); conns[i] == nil {
+				return
+			}
+		}
+		payload, _ := json.Marshal(&packet.TunnelOpenRequest{MappingID: mapping.ID, TunnelID: tid, SecretKey: mapping.SecretKey})
+		errs := make([]error, k)
+		var arrived atomic.Int32
+		var wg sync.WaitGroup
+		for i := range conns {
+			wg.Add(1)
+			go func(i int) {
+				defer wg.Done()
+				arrived.Add(1)
+				for spins := 0; arrived.Load() < int32(k) && spins < 1<<26; spins++ {
+				}
+				errs[i] = conns[i].Send(&packet.TransferPacket{PacketType: packet.TunnelOpen, Payload: append([]byte(nil), payload...)})
+			}(i)
+		}
+		wg.Wait()
+		for _, e := range errs {
+			if e != nil && strings.Contains(e.Error(), "already exists") {
+				run.Count("race_loser_rejected_in_startSourceBridge", 1)
+			}
+		}
+		if n.SM.GetTunnelBridgeByMappingID(mapping.ID, 0) == nil {
+			run.Count("race_no_waiting_bridge", 1) // nobody is waiting: nothing to judge
+			return
+		}
+		run.Count("race_cases_with_waiting_bridge", 1)
+		if !checkWaiting("after-concurrent-source-opens") {
+			return
+		}
+		// a sequential duplicate open on yet another connection (bridge already published)
+		dup := sourceConn()
+		if dup == nil {
+			return
+		}
+		_, _ = c09OpenTunnel(dup, mapping.ID, tid, mapping.SecretKey)
+		if n.SM.GetTunnelBridgeByMappingID(mapping.ID, 0) == nil {
+			run.Count("race_no_waiting_bridge", 1)
+			return
+		}
+		if !checkWaiting("after-sequential-duplicate-open") {
+			return
+		}
+		run.Count("duplicate_opens_survived|"+backend, 1)
+	} else {
+		if sc = sourceConn(); sc == nil {
+			return
+		}
+		ack, oerr := c09OpenTunnel(sc, mapping.ID, tid, mapping.SecretKey)
+		if ack == nil || !ack.Success {
+			run.Count("source_open_failed", 1)
+			detail["setup_error"] = fmt.Sprintf("ack=%+v err=%v", ack, oerr)
+			run.Observe("last_setup_error", detail)
+			return
+		}
+		// The source bridge is waiting (bridge + routing record are created synchronously
+		// inside HandlePacket before it returned).
+		if !checkWaiting("after-source-open") {
+			return
+		}
 	}
 	run.Count("waiting_resolved_from_other_node|"+backend, 1)
 
@@ -320,7 +402,7 @@ func c09LifecycleCase(t *testing.T, run *vk.Run, backend, ending, tid, host stri
 		} else {
 			sc.hc.Close()
 		}
-	case "node-cancelled":
+	case "node-cancelled", "dup-race":
 		n.Close() // cancels the node context (stores stay open): the bridge is cancelled before any target arrived
 	}
 	if !c09AwaitLifecycleEnd() {
